@@ -6,6 +6,7 @@ require (
 	github.com/fxamacker/cbor/v2 v2.8.0
 	github.com/go-chi/chi/v5 v5.2.1
 	github.com/google/go-tpm v0.9.3
+	github.com/google/uuid v1.6.0
 	github.com/slackhq/nebula v1.9.5
 	github.com/smallstep/certificates v0.0.0
 	github.com/smallstep/go-attestation v0.4.4-0.20240109183208-413678f90935
@@ -46,7 +47,6 @@ require (
 	github.com/golang/snappy v0.0.4 // indirect
 	github.com/google/certificate-transparency-go v1.1.7 // indirect
 	github.com/google/go-tspi v0.3.0 // indirect
-	github.com/google/uuid v1.6.0 // indirect
 	github.com/huandu/xstrings v1.5.0 // indirect
 	github.com/jackc/pgpassfile v1.0.0 // indirect
 	github.com/jackc/pgservicefile v0.0.0-20221227161230-091c0ba34f0a // indirect
